@@ -33,7 +33,7 @@ run_demo() { # returns 0 if demo passes
   return $rc
 }
 run_demo; clean=$?
-git -C "$wt" apply "$d/patch.diff" || { echo '{"error":"patch does not apply"}'; exit 2; }
+git -C "$wt" apply "$d/patch.diff" 2>/dev/null || git -C "$wt" apply -3 "$d/patch.diff" || { echo '{"error":"patch does not apply"}'; exit 2; }
 ( cd "$wt" && go build ./... && go vet ./... ) >/dev/null 2>&1; build=$?
 ( cd "$wt" && go test -count=1 ./... ) >/dev/null 2>&1; tests=$?
 run_demo; mutated=$?
